@@ -63,7 +63,7 @@ pub fn eval_grid<const K: usize>(t: &AffTree<K>, q: f64, den: i64, r: i64) -> Va
     json!({"den": den, "vals": vals})
 }
 
-fn none() -> Value {
+pub fn none() -> Value {
     json!({"none": true})
 }
 
